@@ -122,6 +122,24 @@ for name in names:
             if res[rid] != alone[k]:
                 diff = {f: (alone[k][f], res[rid][f]) for f in alone[k] if alone[k][f] != res[rid][f]}
                 wit.append({'key': f'{name}:depends-on-batch:{b}:{k}', 'alone_vs_batch': json.dumps(diff, default=str)[:600]})
+    # the same service document planned twice (the caller's dictionary handed over as it is): same result, document untouched
+    from bounded.common import sync as _sync
+    doc = {'path-request': [service('a', s[0], s[2]), service('b', s[0], s[2]), service('c', s[0], s[1])],
+           'synchronization': [_sync('s', ['a', 'c']), _sync('t', ['b', 'c'])]}
+    before = json.dumps(doc, sort_keys=True, default=str)
+    cases += 1
+    try:
+        runs = []
+        for _ in range(2):
+            _, pp_, _, rqs_, _, _ = planning(deepcopy(net0), deepcopy(eqpt), doc)
+            runs.append([(str(r.request_id), [e.uid for e in p_]) for r, p_ in zip(rqs_, pp_)])
+        if runs[0] != runs[1]:
+            wit.append({'key': f'{name}:same-document-planned-twice', 'problems': f'first {runs[0]} second {runs[1]}'[:400]})
+    except Exception as e:
+        wit.append({'key': f'{name}:same-document-planned-twice', 'problems': f'{type(e).__name__}: {e!r}'[:200]})
+    if json.dumps(doc, sort_keys=True, default=str) != before:
+        wit.append({'key': f'{name}:service-document-rewritten-by-planning',
+                    'problems': f'synchronisation vectors after planning: {[v["svec"]["request-id-number"] for v in doc["synchronization"]]}'})
     # synchronisation groups that have nothing to do with each other: each group gets the routes and figures it gets when it is
     # planned without the other one, in either order of the groups and of the vectors (ids chosen so that one is a substring of another)
     from bounded.common import sync
